@@ -8,63 +8,63 @@ Local Open Scope list_scope.
 
 (* the generated code's verdict is the sampled semantics (no exception), so every statement
    below about [chk] is a statement about what the decorated call / door function returns *)
-Theorem C02_verdict_is_chk : forall cf r preds h x,
+Theorem C02_verdict_is_chk : forall cf r pb h x,
   hint_ok h = true -> wf x = true -> ignorable h = false ->
-  verdict r preds (check_expr cf h) x = Ok (chk cf r h x).
+  verdict r (preds_of pb) (check_expr cf h) x = Ok (chk cf r pb h x).
 Proof.
-  intros cf r preds h x Hok Hw Hig. rewrite (check_expr_correct cf r preds h x Hok Hw).
+  intros cf r pb h x Hok Hw Hig. rewrite (check_expr_correct cf r pb h x Hok Hw).
   unfold check. now rewrite Hig.
 Qed.
 Print Assumptions C02_verdict_is_chk.
 
-Theorem C02_toplevel : forall cf r preds h x cs,
+Theorem C02_toplevel : forall cf r pb h x cs,
   hint_ok h = true -> wf x = true -> ignorable h = false ->
   top_classes h = Some cs -> isinst x cs = false ->
-  verdict r preds (check_expr cf h) x = Ok false.
+  verdict r (preds_of pb) (check_expr cf h) x = Ok false.
 Proof.
   intros. rewrite C02_verdict_is_chk by assumption. f_equal. eapply reject_toplevel; eauto.
 Qed.
 Print Assumptions C02_toplevel.
 
-Theorem C02_tuple_length : forall cf hs x r,
-  List.length (items x) <> List.length hs -> chk cf r (HTuple hs) x = false.
+Theorem C02_tuple_length : forall cf pb hs x r,
+  List.length (items x) <> List.length hs -> chk cf r pb (HTuple hs) x = false.
 Proof. exact reject_tuple_length. Qed.
 Print Assumptions C02_tuple_length.
 
-Theorem C02_tuple_position : forall cf hs x r k h',
+Theorem C02_tuple_position : forall cf pb hs x r k h',
   nth_error hs k = Some h' -> ignorable h' = false ->
-  chk cf r h' (nth k (items x) VNone) = false -> chk cf r (HTuple hs) x = false.
+  chk cf r pb h' (nth k (items x) VNone) = false -> chk cf r pb (HTuple hs) x = false.
 Proof. exact reject_tuple_position. Qed.
 Print Assumptions C02_tuple_position.
 
-Theorem C02_literal : forall cf vs x r,
-  (forall v, In v vs -> py_eq x v = false) -> chk cf r (HLiteral vs) x = false.
+Theorem C02_literal : forall cf pb vs x r,
+  (forall v, In v vs -> py_eq x v = false) -> chk cf r pb (HLiteral vs) x = false.
 Proof. exact reject_literal. Qed.
 Print Assumptions C02_literal.
 
-Theorem C02_type : forall cf cs x r, issubcls x cs <> Some true -> chk cf r (HType cs) x = false.
+Theorem C02_type : forall cf pb cs x r, issubcls x cs <> Some true -> chk cf r pb (HType cs) x = false.
 Proof. exact reject_type. Qed.
 Print Assumptions C02_type.
 
-Theorem C02_union_none : forall cf hs x r,
-  (forall h', In h' hs -> chk cf r h' x = false) -> chk cf r (HUnion hs) x = false.
+Theorem C02_union_none : forall cf pb hs x r,
+  (forall h', In h' hs -> chk cf r pb h' x = false) -> chk cf r pb (HUnion hs) x = false.
 Proof. exact reject_union. Qed.
 Print Assumptions C02_union_none.
 
-Theorem C02_all_items_bad : forall cf s ch x r,
+Theorem C02_all_items_bad : forall cf pb s ch x r,
   ignorable ch = false -> hint_ok (HCont s ch) = true ->
   issub (type_of x) c_Collection = true -> items x <> [] ->
-  (forall y, In y (items x) -> chk cf r ch y = false) ->
-  chk cf r (HCont s ch) x = false.
+  (forall y, In y (items x) -> chk cf r pb ch y = false) ->
+  chk cf r pb (HCont s ch) x = false.
 Proof. exact reject_all_items. Qed.
 Print Assumptions C02_all_items_bad.
 
 (* every index below 2^32 of a sequence is reached by some 32-bit draw ... *)
-Theorem C02_reachable : forall cf s ch x i,
+Theorem C02_reachable : forall cf pb s ch x i,
   is_random cf = true -> ignorable ch = false -> sign_family s = Some FSequence ->
   i < List.length (items x) -> (Z.of_nat i < 2 ^ 32)%Z ->
-  (forall r, chk cf r ch (nth i (items x) VNone) = false) ->
-  exists r, (0 <= r < 2 ^ 32)%Z /\ chk cf r (HCont s ch) x = false.
+  (forall r, chk cf r pb ch (nth i (items x) VNone) = false) ->
+  exists r, (0 <= r < 2 ^ 32)%Z /\ chk cf r pb (HCont s ch) x = false.
 Proof. exact reach_sequence_item. Qed.
 Print Assumptions C02_reachable.
 
@@ -79,23 +79,28 @@ Proof.
 Qed.
 Print Assumptions C02_reachable_full_refuted.
 
-Theorem C02_nonrandom_first : forall cf s ch x r,
+Theorem C02_nonrandom_first : forall cf pb s ch x r,
   is_random cf = false -> ignorable ch = false -> sign_family s = Some FSequence ->
-  items x <> [] -> chk cf r ch (first x) = false -> chk cf r (HCont s ch) x = false.
+  items x <> [] -> chk cf r pb ch (first x) = false -> chk cf r pb (HCont s ch) x = false.
 Proof. exact nonrandom_first. Qed.
 Print Assumptions C02_nonrandom_first.
 
-Theorem C02_accept_consistent : forall cf s ch x r,
+Theorem C02_accept_consistent : forall cf pb s ch x r,
   ignorable ch = false -> hint_ok (HCont s ch) = true -> issub (type_of x) c_Collection = true ->
-  chk cf r (HCont s ch) x = true ->
-  items x = [] \/ exists y, In y (items x) /\ chk cf r ch y = true.
+  chk cf r pb (HCont s ch) x = true ->
+  items x = [] \/ exists y, In y (items x) /\ chk cf r pb ch y = true.
 Proof. exact accept_consistent. Qed.
 Print Assumptions C02_accept_consistent.
 
-Theorem C02_ignorable_complete : forall h x,
-  ignorable h = true -> issub (type_of x) c_object = true -> sat h x = true.
+Theorem C02_ignorable_complete : forall pb h x,
+  ignorable h = true -> issub (type_of x) c_object = true -> sat pb h x = true.
 Proof. exact ignorable_accepts_all. Qed.
 Print Assumptions C02_ignorable_complete.
+
+Theorem C02_validator : forall cf pb mh vs v x r,
+  In v vs -> vmean pb v x = false -> chk cf r pb (HAnnot mh vs) x = false.
+Proof. exact reject_validator. Qed.
+Print Assumptions C02_validator.
 
 (* ---- non-vacuity ---- *)
 Example C02_demo_reachable :
@@ -103,7 +108,7 @@ Example C02_demo_reachable :
   let x := VCont c_list [VInt 1; VStr "bad"; VInt 3] in
   let cf := {| is_random := true |} in
   wf x = true /\ hint_ok h = true /\
-  map (fun r => chk cf r h x) [0; 1; 2; 4; 2 ^ 32 - 1]%Z = [true; false; true; false; true]
-  /\ chk {| is_random := false |} 1 h x = true
-  /\ chk {| is_random := false |} 1 h (VCont c_list [VStr "bad"; VInt 3]) = false.
+  map (fun r => chk cf r (fun _ _ => false) h x) [0; 1; 2; 4; 2 ^ 32 - 1]%Z = [true; false; true; false; true]
+  /\ chk {| is_random := false |} 1 (fun _ _ => false) h x = true
+  /\ chk {| is_random := false |} 1 (fun _ _ => false) h (VCont c_list [VStr "bad"; VInt 3]) = false.
 Proof. vm_compute. repeat split. Qed.
